@@ -101,7 +101,8 @@ def define_to_job(name, val):
         return {"name": name, "bool": True}
     if v == "false":
         return {"name": name, "bool": False}
-    m = re.fullmatch(r"-?(0x[0-9a-fA-F_]+|0b[01_]+|0o[0-7_]+|\$[0-9a-fA-F_]+|%[01_]+|[0-9][0-9_]*)", v)
+    # a radix prefix needs at least one digit after it (underscores are only separators)
+    m = re.fullmatch(r"-?(0x_*[0-9a-fA-F][0-9a-fA-F_]*|0b_*[01][01_]*|0o_*[0-7][0-7_]*|\$_*[0-9a-fA-F][0-9a-fA-F_]*|%_*[01][01_]*|[0-9][0-9_]*)", v)
     if not m:
         return None
     return {"name": name, "int": v}
